@@ -10,6 +10,7 @@ type StackN<const N: usize, const S: usize> = any_vec::mem::StackN<N, S>;
 
 #[cfg(feature = "lib_alloc")]
 anyvec_pbt::configs! {
+    Tr16a4_Stack: Tr16a4, Stack<70>, dyn Cloneable, G_BACKEND | G_STACK;
     Cc24_Heap:    Cc24,   Heap,  dyn Cloneable + Send, G_BACKEND | G_RAW;
     Tr16_StackNA:  Tr16,   StackN<3, 48>,   dyn Cloneable, G_ALIGN;
     Tr3_Multi:    Tr3,    Multi, dyn Cloneable, G_LAYOUT | G_CORE | G_FAULT;
@@ -24,6 +25,7 @@ anyvec_pbt::configs! {
 
 #[cfg(not(feature = "lib_alloc"))]
 anyvec_pbt::configs! {
+    Tr16a4_Stack: Tr16a4, Stack<70>, dyn Cloneable, G_BACKEND | G_STACK;
     Tr16_StackNA:  Tr16,   StackN<3, 48>,   dyn Cloneable, G_ALIGN;
     Tr1_Stack:    Tr1,    Stack<6>,       dyn Cloneable, G_BACKEND | G_STACK;
 }
